@@ -61,6 +61,13 @@ class _Interp:
             raise _Unmodelled(f"attribute `{t}`")
         if isinstance(e, ast.Call) and (call_name(e) or "").split(".")[-1] == "NoNoise" and not e.args:
             return "NO"
+        if isinstance(e, ast.Call) and call_attr(e) == "get" and e.args and isinstance(e.args[0], ast.Constant) and e.args[0].value == "After gate" \
+                and isinstance(e.func.value, ast.Attribute) and e.func.value.attr == "noise_parameters":
+            # <noise>.noise_parameters.get("After gate"[, default]): every noise model's constructor sets the key, so this reads the flag
+            sym = self.val(e.func.value.value)
+            if sym == "NO":
+                return True
+            return self.mo["after"][sym]
         if isinstance(e, ast.Subscript):
             if isinstance(e.slice, ast.Constant) and isinstance(e.slice.value, str):
                 # <noise>.noise_parameters["After gate"]
